@@ -93,3 +93,10 @@ package api
 // the build that broadcasts its result; it may only be touched under apiHandler.mutex, and nothing that can block
 // on another party (a channel send to a stream whose client may not be reading) may happen while it is held.
 //@ protect serve-state C20: type=apiHandler ; fields=activeStreams,currentHashes ; mutex=mutex ; in=api
+
+// (Placed here because pkg/api imports every package named below.)
+// C14 ("for every other newer feature esbuild reports an error, or a warning ..."; "`supported` overrides are honoured"):
+// an entry of the feature table can only be honoured if some code asks for it. Every JSFeature / CSSFeature constant is
+// an operand of at least one instruction in the packages that parse, lower, link or print.
+//@ consulted js-feature-table C14: type=compat.JSFeature ; in=js_parser,js_printer,js_lexer,js_ast,linker,bundler,api,renamer,config,runtime,resolver ; scenario.Hashbang=hashbang_unsupported_target
+//@ consulted css-feature-table C14: type=compat.CSSFeature ; in=css_parser,css_printer,css_lexer,css_ast,linker,bundler,api,config
